@@ -130,6 +130,18 @@ func verifH_C20_lines() {
 	if paste {
 		input = append(input, pasteStart...)
 	}
+	if pad := verifParam("pad", 0); pad > 0 {
+		// a concrete first statement of pad bytes (Enter included), so that the
+		// statements that follow straddle the 256-byte read buffer of the terminal
+		var stmt []byte
+		for i := 0; i < pad-2; i++ {
+			stmt = append(stmt, 'x')
+		}
+		stmt = append(stmt, ';')
+		input = append(append(input, stmt...), '\r')
+		want = append(want, string(stmt))
+	}
+	segKinds := verifParam("segkinds", 3)
 	for s := 0; s < k; s++ {
 		var stmt []byte
 		for g := 0; g < segs; g++ {
@@ -144,7 +156,11 @@ func verifH_C20_lines() {
 					stmt = append(stmt, ' ')
 				}
 			}
-			switch verifChoice("seg", 3) {
+			switch verifChoice("seg", segKinds) {
+			case 3: // quoted literal with a 2-byte and a 3-byte UTF-8 character
+				lit := []byte{'\'', 0xc3, 0xa9, 0xe2, 0x82, 0xac, '\''}
+				input = append(input, lit...)
+				stmt = append(stmt, lit...)
 			case 0: // plain text: two printable bytes, no quote, no semicolon, no space
 				b := []byte{byte(verifIntFrom("plain", verifPlainBytes)), byte(verifIntFrom("plain", verifPlainBytes))}
 				input = append(input, b...)
@@ -184,7 +200,7 @@ func verifH_C20_lines() {
 	}
 	term := NewTerminal(&verifTTY{in: input, chunk: chunk}, "")
 	var got []string
-	for i := 0; i < 2*k+2; i++ {
+	for i := 0; i < 2*k+4; i++ {
 		lines, err := term.ReadLine()
 		got = append(got, lines...)
 		if err != nil && err != ErrPasteIndicator {
